@@ -4,6 +4,7 @@
 //! repeated sub-tree), so nothing is evaluated twice and nothing is skipped.
 
 use crate::engine::FieldCfg;
+use crate::hand::{AnySpec, HandEnum, Slot, UNLIMITED};
 use crate::spec::*;
 
 pub struct Family {
@@ -11,7 +12,7 @@ pub struct Family {
     pub name: String,
     pub what: String,
     pub count: u64,
-    pub spec_at: Box<dyn Fn(u64) -> Option<Spec> + Send + Sync>,
+    pub spec_at: Box<dyn Fn(u64) -> Option<AnySpec> + Send + Sync>,
 }
 
 use BT::*;
@@ -50,12 +51,80 @@ fn all_trees<T: Tree>(leaves: &[T], d: usize) -> Vec<T> {
 /// is moved into a new `Arc` by the operator that consumes it), so both lowerings hand the
 /// repo's compiler symbolic DAGs with the identical node/pointer-sharing structure, and the
 /// native folders only see values. The `fresh` twin (index - count/2) covers it.
-fn finish_spec(s: Spec) -> Option<Spec> {
+fn finish_spec(s: Spec) -> Option<AnySpec> {
     if s.share && lower(&s).reuses == 0 {
         return None;
     }
     debug_assert!(s.valid(), "{}", s.canon());
-    Some(s)
+    Some(AnySpec::Api(s))
+}
+
+// ------------------------------------------------------------------------ hand-built DAGs
+
+fn slot(ext: bool, min_ops: usize, max_ops: usize) -> Slot {
+    Slot { ext, min_ops, max_ops }
+}
+
+/// Every AIR of hand-built `Arc` DAGs (hand.rs) with the given constraint slots: every tree
+/// of min..=max operator nodes {Neg, Add, Sub, Mul} per constraint x every operand position
+/// either a NEW node or a reference to ANY node created earlier (earlier constraint or
+/// earlier in the same constraint; inner nodes and leaves) — i.e. for every binary node the
+/// patterns (fresh,fresh) / (shared,fresh) / (fresh,shared) / (shared,shared) with every
+/// possible target — with at most `max_refs` references per AIR.
+fn hand(name: &str, slots: Vec<Slot>, max_refs: u8, phases: u64) -> Family {
+    let desc: Vec<String> = slots
+        .iter()
+        .map(|s| format!("{}[{}..={} ops]", if s.ext { "ext" } else { "base" }, s.min_ops, s.max_ops))
+        .collect();
+    let en = HandEnum::new(slots, max_refs, phases);
+    Family {
+        field: FieldCfg::BabyBear4,
+        name: name.into(),
+        what: format!(
+            "HAND-BUILT Arc DAGs (SymbolicExpression::{{Add,Sub,Mul,Neg}} constructed directly, operands = Arc::clone of earlier nodes): constraints {} — every tree shape/operator word x every operand position new or a reference to any earlier-created node (inner node or leaf, earlier constraint or same constraint), {} references per AIR; fresh leaves take distinct kinds by position, {} rotation(s); native side = the tree unfolding through the AirBuilder API",
+            desc.join(" ; "),
+            if max_refs == UNLIMITED { "any number of".to_string() } else { format!("<= {max_refs}") },
+            phases
+        ),
+        count: en.count(),
+        spec_at: Box::new(move |idx| Some(AnySpec::Hand(en.at(idx)))),
+    }
+}
+
+/// quick tier: all sharing patterns for constraints of 1-2 operators, and 1-3 operators
+/// next to a 1-operator constraint (both orders); base, extension and mixed.
+fn hand_quick() -> Vec<Family> {
+    let (b, e) = (false, true);
+    vec![
+        hand("hand_dag_3x1op", vec![slot(b, 1, 1); 3], UNLIMITED, 2),
+        hand("hand_dag_2x2ops", vec![slot(b, 1, 2); 2], UNLIMITED, 1),
+        hand("hand_dag_1op_then_3ops", vec![slot(b, 1, 1), slot(b, 1, 3)], UNLIMITED, 1),
+        hand("hand_dag_3ops_then_1op", vec![slot(b, 1, 3), slot(b, 1, 1)], UNLIMITED, 1),
+        hand("hand_dag_ext_2x2ops_2refs", vec![slot(e, 1, 2); 2], 2, 1),
+        hand("hand_dag_base_then_ext", vec![slot(b, 1, 2), slot(e, 1, 2)], UNLIMITED, 1),
+        hand("hand_dag_ext_then_base", vec![slot(e, 1, 2), slot(b, 1, 2)], UNLIMITED, 1),
+    ]
+}
+fn hand_small() -> Vec<Family> {
+    let (b, e) = (false, true);
+    vec![
+        hand("hand_dag_3x1op", vec![slot(b, 1, 1); 3], UNLIMITED, 1),
+        hand("hand_dag_ext_base_ext_1op", vec![slot(e, 1, 1), slot(b, 1, 1), slot(e, 1, 1)], UNLIMITED, 1),
+    ]
+}
+fn hand_thorough() -> Vec<Family> {
+    let (b, e) = (false, true);
+    vec![
+        hand("hand_dag_2x3ops_2refs", vec![slot(b, 1, 3); 2], 2, 1),
+        hand("hand_dag_2ops_then_3ops", vec![slot(b, 1, 2), slot(b, 3, 3)], UNLIMITED, 1),
+        hand("hand_dag_3ops_then_2ops", vec![slot(b, 3, 3), slot(b, 2, 2)], UNLIMITED, 1),
+        hand("hand_dag_3x2ops_2refs", vec![slot(b, 1, 2); 3], 2, 1),
+        hand("hand_dag_1op_2x2ops", vec![slot(b, 1, 1), slot(b, 1, 2), slot(b, 1, 2)], UNLIMITED, 1),
+        hand("hand_dag_ext_2x3ops_1ref", vec![slot(e, 1, 3); 2], 1, 1),
+        hand("hand_dag_ext_base_ext_1ref", vec![slot(e, 1, 2), slot(b, 1, 2), slot(e, 1, 2)], 1, 1),
+        hand("hand_dag_ext_2x2ops", vec![slot(e, 1, 2); 2], UNLIMITED, 1),
+        hand("hand_dag_2x2ops_all_rotations", vec![slot(b, 1, 2); 2], UNLIMITED, 10),
+    ]
 }
 
 /// One constraint, every tree of depth <= d over `leaves`; × filters (optional) × {fresh, share}.
@@ -405,6 +474,9 @@ fn small_list() -> Vec<Family> {
         interleave("emission_order_2_lookup", bpool2(), epool2(), 2, one_lookup()),
         lookup_family("lookup_contexts", false),
     ]
+    .into_iter()
+    .chain(hand_small())
+    .collect()
 }
 
 /// The quick tier of the primary field.
@@ -452,18 +524,24 @@ fn quick_list() -> Vec<Family> {
         // --- lookup contexts (LogUp constraints generated by p3 from the contexts)
         lookup_family("lookup_contexts", true),
     ]
+    .into_iter()
+    // --- hand-built Arc DAGs: sharing patterns the operator API cannot produce
+    .chain(hand_quick())
+    .collect()
 }
 
 fn thorough_extra() -> Vec<Family> {
     let long: Vec<usize> = vec![384, 512, 1024, 2048];
-    vec![
+    let mut v = hand_thorough();
+    v.extend(vec![
         chains("deep_chains_long", &long, 14),
         single("base_d3_two_leaves", leaves_two(), 3, false, true),
         single("base_d2_all_leaves", leaves_full(), 2, false, true),
         multi("two_constraints_all_leaves", all_trees(&leaves_full(), 1), 2, false),
         single_ext("ext_d2_noperm_all", eleaves_noperm(), 2, false, vec![]),
         single_ext("ext_d2_perm_2lookups", eleaves_perm(2), 2, false, two_lookups()),
-    ]
+    ]);
+    v
 }
 
 fn in_field(mut v: Vec<Family>, f: FieldCfg) -> Vec<Family> {
